@@ -326,7 +326,11 @@ def gen_history_plans(ctx):
         late = (rb(rng, 16), seqs[0] if hi % 3 == 0 else seqs[1] if nkeys == 1 else rng.choice([s_ for s_ in range(256) if s_ not in seqs]))
         for _ in range(2):
             events.append({"sender": rng.randrange(len(senders)), "key": "late", "fc": min(base + rng.randrange(1, 40), 0xFFFFFFFF), "lvl": rng.choice([0, 5, 6]), "ft": rng.choice([0, 1])})
-        plans.append({"cfg": cfg, "keys": keys, "rogue": rogue, "late": late, "senders": senders, "events": events})
+        # key material REPLACED under the same sequence number (NLME-SET / cold NLME-RESET + new key): frames under the new key
+        repl = (rb(rng, 16), seqs[0])
+        for _ in range(2):
+            events.append({"sender": rng.randrange(len(senders)), "key": "repl", "fc": min(base + rng.randrange(1, 60), 0xFFFFFFFF), "lvl": rng.choice([0, 5, 5, 6]), "ft": rng.choice([0, 1])})
+        plans.append({"cfg": cfg, "keys": keys, "rogue": rogue, "late": late, "repl": repl, "senders": senders, "events": events})
     # many distinct senders between a frame and its replay (the counter table must not forget a silent device):
     # victim frame, one authentic frame from each of N other devices under the same key, replay of the victim frame
     for nothers in ([70, 130, 64, 65, 200] if ctx.thorough else [70]):
@@ -344,7 +348,8 @@ def plan_enc_cases(rng, plan):
     """phase-1 encrypt cases for the genuine events of a plan (built the way NWKDataService builds them)."""
     out = []
     for ev in plan["events"]:
-        key, seq = plan["rogue"] if ev["key"] == "rogue" else plan["late"] if ev["key"] == "late" else plan["keys"][ev["key"]]
+        key, seq = (plan["rogue"] if ev["key"] == "rogue" else plan["late"] if ev["key"] == "late" else plan["repl"] if ev["key"] == "repl"
+                    else plan["keys"][ev["key"]])
         f = gen_secured(rng, "nwk", lvl=ev["lvl"], kt=1, ft=ev["ft"], fc=ev["fc"], src=plan["senders"][ev["sender"]],
                         kseq=ev.get("kseq", seq), n=ev.get("n", rng.choice([0, 1, 2, 5, 20])), rich=False)
         M = M_OF[f.lvl]
@@ -391,6 +396,12 @@ def plan_schedule(rng, plan, enc_frames):
         b = bytearray(bytes.fromhex(enc_frames[0]))
         b[17] = (b[17] & 0xF8) | 4
         sched.insert(rng.randrange(len(sched) + 1), (bytes(b).hex(), "level4", 0))
+    # truncated copies of genuine frames: everything after the security header removed, and the MIC cut short
+    for _ in range(2):
+        i = rng.randrange(len(enc_frames))
+        b = bytes.fromhex(enc_frames[i])
+        cut = 31 if rng.random() < 0.5 else max(31, len(b) - rng.randrange(1, M_OF[plan["events"][i]["lvl"]] + 1))   # 9 MAC + 8 NWK + 14 security header bytes
+        sched.insert(rng.randrange(len(sched) + 1), (b[:cut].hex(), "truncated", i))
     # ---- management operations on the NWK manager, interleaved with the frames ----
     def mg(op, **kw):
         return (dict(kw, mgmt=op), "mgmt", None)
@@ -418,6 +429,14 @@ def plan_schedule(rng, plan, enc_frames):
     if rng.random() < 0.5:
         sched.append(mg("set_active", seq=late_s))
         sched += genuine_of("late")[:1] + genuine_of(0)[:1]
+    if "repl" in plan:
+        # the material of key 0 replaced by another key under the SAME sequence number: afterwards the frames under the new key must be
+        # delivered and every frame under the old key refused
+        kr, sr = plan["repl"]
+        how = rng.choice(["remove", "set", "reset"])
+        sched += [mg("remove_key", key=k0.hex())] if how == "remove" else [mg("clear_keys", how=how)]
+        sched.append(mg("add_key", key=kr.hex(), seq=sr))
+        sched += genuine_of("repl") + genuine_of(0)[:3] + genuine_of("repl")[:1]
     return sched
 
 
@@ -561,7 +580,8 @@ def coq_history(cfg, sched, steps, sparse=False):
     for (item, kind, _ei), r in zip(sched, steps):
         if kind == "mgmt":
             m = ("(AddKey %s %d)" % (cbytes(bytes.fromhex(item["key"])), item["seq"]) if item["mgmt"] == "add_key" else
-                 "(SetActive %d)" % item["seq"] if item["mgmt"] == "set_active" else "(RemoveKey %s)" % cbytes(bytes.fromhex(item["key"])))
+                 "(SetActive %d)" % item["seq"] if item["mgmt"] == "set_active" else "ClearKeys" if item["mgmt"] == "clear_keys"
+                 else "(RemoveKey %s)" % cbytes(bytes.fromhex(item["key"])))
             items.append("(HMgmt %s, ObsNone, %d, (Some %s))" % (m, r["active"], coq_ktables(r["ktables"])))
             continue
         d = r["in"]
@@ -779,6 +799,27 @@ def run(ctx):
         if mgr == "aps" and inp is not None:    # right link key, wrong derivation input
             tam_cases.append({"mgr": mgr, "frame": fhex, "set": None, "steps": [{"op": "dec", "key": key, "inp": (inp + 1) % 3, "via": "bytes"}]})
             tam_meta.append({"kind": "wrong-input", "src": i, "orig": fhex})
+    # tamper class "truncation": the encrypted frame with its MIC shortened by 1..M bytes, and with only 0..M-1 bytes left after the
+    # security header (0 = payload and MIC removed entirely); as bytes, and as a packet object whose mic field is short
+    trunc_levels = {}
+    for (i, fhex, low, key, inp, m) in pool:
+        lk = (m["lvl"], rt_cases[i]["mgr"])
+        if trunc_levels.get(lk, 0) >= (6 if ctx.thorough else 1):
+            continue
+        trunc_levels[lk] = trunc_levels.get(lk, 0) + 1
+        o = res_rt[i][0]["out"]
+        b = bytes.fromhex(fhex)
+        trailer = (len(o["data"]) + len(o["mic"])) // 2
+        hdr_end = len(b) - trailer
+        M = M_OF[m["lvl"]]
+        cuts = sorted({len(b) - j for j in range(1, M + 1) if len(b) - j >= hdr_end} | {hdr_end + t for t in range(0, min(M, trailer + 1))})
+        for cut in cuts:
+            tam_cases.append({"mgr": rt_cases[i]["mgr"], "frame": b[:cut].hex(), "set": None, "steps": [{"op": "dec", "key": key, "inp": inp, "via": "bytes"}]})
+            tam_meta.append({"kind": "truncate", "src": i, "orig": fhex, "left": cut - hdr_end})
+        for t in sorted({0, 1, M - 1}):
+            tam_cases.append({"mgr": rt_cases[i]["mgr"], "frame": b[:hdr_end].hex(), "set": {"data": o["data"], "mic": o["mic"][:2 * t]},
+                              "steps": [{"op": "dec", "key": key, "inp": inp, "via": "obj"}]})
+            tam_meta.append({"kind": "truncate-object", "src": i, "orig": fhex, "left": t})
     # the SAME packet object decrypted under a wrong key first, then under the right key; and through ZigbeeDecryptor key rings
     redec_cases, redec_meta, ring_reqs, ring_meta = [], [], [], []
     for k, (i, fhex, low, key, inp, m) in enumerate(pool[:(400 if ctx.thorough else 30)]):
@@ -844,19 +885,22 @@ def run(ctx):
     n_changed = 0
     for c, steps, m in zip(tam_cases, r2["crypt"], tam_meta):
         st = steps[0]
-        case = {"op": "tamper", "mgr": c["mgr"], "frame": c["frame"], "steps": c["steps"], "kind": m["kind"], "bit": m.get("bit"), "original": m["orig"]}
+        case = {"op": "tamper", "mgr": c["mgr"], "frame": c["frame"], "set": c.get("set"), "steps": c["steps"], "kind": m["kind"], "bit": m.get("bit"),
+                "original": m["orig"], "bytes_left_after_header": m.get("left")}
         if m["kind"] == "flip":
             bump("tamper_region", m["region"])
+        else:
+            bump("tamper_region", "kind:" + m["kind"])
         # the oracle below sees every tamper case; the in-Coq correspondence takes all of them in the thorough tier and, in the
         # quick tier, the complete sweep of one frame plus every fifth of the other tamper cases (wall-clock budget)
         tam_seen += 1
-        if ctx.thorough or (m["kind"] == "flip" and m["src"] in corr_full) or tam_seen % 5 == 0:
+        if ctx.thorough or (m["kind"] == "flip" and m["src"] in corr_full) or m["kind"].startswith("truncate") or tam_seen % 5 == 0:
             add_terms(steps, ["dec"], ("tamper", m["kind"]))
         if "exc" in st:
             bump("outcome", "tamper-rejected-by-" + st["exc"])
         elif st["status"] is True:
             bump("outcome", "tamper-ACCEPTED")
-            nviol += ctx.violation("a frame modified in one bit / decrypted under another key is accepted (%s)" % m["kind"], case,
+            nviol += ctx.violation("a frame modified in one bit / truncated / decrypted under another key is accepted (%s)" % m["kind"], case,
                                    expected={"status": False}, observed={"status": True, "data": st["out"]["data"]})
         else:
             bump("outcome", "tamper-rejected")
@@ -937,6 +981,8 @@ def run(ctx):
                 elif op["mgmt"] == "remove_key":
                     mats = [x for x in mats if x[1] != op["key"]]
                     last = {t: c for t, c in last.items() if t[0] != op["key"]}      # the table goes with the material
+                elif op["mgmt"] == "clear_keys":
+                    mats, last = [], {}
                 continue
             ev = p["events"][ei] if ei is not None else None
             d = r["in"]
@@ -953,7 +999,8 @@ def run(ctx):
                     nviol += ctx.violation("unsecured frame delivered although nwkSecureAllFrames is set", case, observed=delivered)
                 hdist["unsecured-up" if delivered else "unsecured-dropped"] += 1
                 continue
-            actual = (p["rogue"] if ev["key"] == "rogue" else p["late"] if ev["key"] == "late" else p["keys"][ev["key"]])[0].hex()
+            actual = (p["rogue"] if ev["key"] == "rogue" else p["late"] if ev["key"] == "late" else p["repl"] if ev["key"] == "repl"
+                      else p["keys"][ev["key"]])[0].hex()
             sel = next((k_ for s_, k_ in mats if s_ == d.get("kseq")), None)      # the material NWKManager.decrypt must select
             genuine = (kind in ("genuine", "replay", "old") and sel is not None and sel == actual and cfg["level"] != 0)
             tk = (sel, d.get("src")) if not d.get("nosec") else None
